@@ -9,6 +9,11 @@ every check must still exit 0 on each variant.  Variants (one per function / sit
   return-temp every `return <non-trivial expr>` of one function becomes `ret_rn = <expr>; return ret_rn`
   hoist-arg   one statement `x = f(<call>, ...)` / `f(<call>, ...)` has its first (leftmost-evaluated) positional argument, when that is a call,
               bound to a fresh local first: `arg_rn = <call>; x = f(arg_rn, ...)` (f a plain name / attribute chain)
+  exit-else   one `if c: ...; return/raise/continue` followed by more statements gets the rest moved into its `else:` arm
+  swap-stmts  two adjacent simple assignments with call-free right-hand sides, neither reading the other's target, are exchanged
+  kw-reorder  the keyword arguments of one call (>= 2 keywords, all values side-effect free: names / attributes / constants / subscripts) are reversed
+  pos-to-kw   one call `self.m(a, b)` of a method of the same class passes its positional arguments by keyword
+  demorgan    one `not (a and b)` / `a and b` test of an if (both operands call-free) becomes `not a or not b` / `not (not a or not b)`
   cmp-flip    one comparison `a < b` becomes `b > a` (likewise <=, >, >=, ==, !=) when both sides are side-effect-free names / attributes / constants / len()
 
 usage: tools/benign.py <sweep target> [--props C01,...] [--kinds rename,swap-if,...] [--funcs f,g]
@@ -16,9 +21,7 @@ usage: tools/benign.py <sweep target> [--props C01,...] [--kinds rename,swap-if,
 from __future__ import annotations
 
 import argparse
-import ast
 import concurrent.futures as cf
-import copy
 import os
 import shutil
 import sys
@@ -26,193 +29,8 @@ import threading
 
 sys.path.insert(0, "/verif")
 from fv import selftest  # noqa: E402
+from fv.benign import KINDS, variants  # noqa: E402
 from tools.sweep import TARGETS  # noqa: E402
-
-
-def funcs_of(tree):
-    out = []
-
-    def walk(node, prefix):
-        for ch in ast.iter_child_nodes(node):
-            if isinstance(ch, ast.FunctionDef):
-                out.append((prefix + ch.name, ch))
-                walk(ch, prefix + ch.name + ".")
-            elif isinstance(ch, ast.ClassDef):
-                walk(ch, prefix + ch.name + ".")
-            else:
-                walk(ch, prefix)
-    walk(tree, "")
-    return out
-
-
-def locals_of(fn: ast.FunctionDef):
-    params = {a.arg for a in fn.args.posonlyargs + fn.args.args + fn.args.kwonlyargs}
-    if fn.args.vararg:
-        params.add(fn.args.vararg.arg)
-    if fn.args.kwarg:
-        params.add(fn.args.kwarg.arg)
-    stores, glob = set(), set()
-    nested_params = set()
-    for n in ast.walk(fn):
-        if isinstance(n, ast.Name) and isinstance(n.ctx, ast.Store):
-            stores.add(n.id)
-        if isinstance(n, (ast.Global, ast.Nonlocal)):
-            glob |= set(n.names)
-        if isinstance(n, (ast.FunctionDef, ast.Lambda)) and n is not fn:
-            for a in n.args.posonlyargs + n.args.args + n.args.kwonlyargs:
-                nested_params.add(a.arg)
-    # names bound in the body of a nested class are class attributes, not locals
-    for n in ast.walk(fn):
-        if isinstance(n, ast.ClassDef):
-            for st in n.body:
-                for m in ast.walk(st):
-                    if isinstance(m, ast.Name) and isinstance(m.ctx, ast.Store) and not isinstance(st, (ast.FunctionDef,)):
-                        glob.add(m.id)
-    # names used as keyword arguments somewhere / in locals() tricks are left alone
-    risky = {"result"} if any(isinstance(n, ast.Call) and isinstance(n.func, ast.Name) and n.func.id == "locals" for n in ast.walk(fn)) else set()
-    return stores - params - glob - nested_params - risky
-
-
-def variants(src, kinds, only_funcs):
-    tree = ast.parse(src)
-    for q, fn in funcs_of(tree):
-        if only_funcs and not any(q == f or q.endswith("." + f) for f in only_funcs):
-            continue
-        if "rename" in kinds:
-            loc = locals_of(fn)
-            if loc:
-                t2 = copy.deepcopy(tree)
-                f2 = dict(funcs_of(t2))[q]
-                for n in ast.walk(f2):
-                    if isinstance(n, ast.Name) and n.id in loc:
-                        n.id = n.id + "_rn"
-                yield q, "rename locals " + ",".join(sorted(loc))[:60], ast.unparse(t2)
-        if "swap-if" in kinds:
-            ifs = [n for n in ast.walk(fn) if isinstance(n, ast.If) and n.orelse and not (len(n.orelse) == 1 and isinstance(n.orelse[0], ast.If))]
-            for k, _ in enumerate(ifs):
-                t2 = copy.deepcopy(tree)
-                f2 = dict(funcs_of(t2))[q]
-                n = [x for x in ast.walk(f2) if isinstance(x, ast.If) and x.orelse and not (len(x.orelse) == 1 and isinstance(x.orelse[0], ast.If))][k]
-                n.test, n.body, n.orelse = ast.UnaryOp(ast.Not(), n.test), n.orelse, n.body
-                yield q, f"swap-if #{k} line {n.lineno}", ast.unparse(ast.fix_missing_locations(t2))
-        if "dot-T" in kinds:
-            t2 = copy.deepcopy(tree)
-            f2 = dict(funcs_of(t2))[q]
-            cnt = [0]
-
-            class R(ast.NodeTransformer):
-                def visit_Call(self, n):
-                    self.generic_visit(n)
-                    if isinstance(n.func, ast.Attribute) and n.func.attr == "transpose" and not n.args and not n.keywords:
-                        cnt[0] += 1
-                        return ast.Attribute(n.func.value, "T", ast.Load())
-                    return n
-            R().visit(f2)
-            if cnt[0]:
-                yield q, f"dot-T x{cnt[0]}", ast.unparse(ast.fix_missing_locations(t2))
-        if "matmul" in kinds:
-            t2 = copy.deepcopy(tree)
-            f2 = dict(funcs_of(t2))[q]
-            cnt = [0]
-
-            class M(ast.NodeTransformer):
-                def visit_Call(self, n):
-                    self.generic_visit(n)
-                    if ast.unparse(n.func) == "np.matmul" and len(n.args) == 2 and not n.keywords:
-                        cnt[0] += 1
-                        return ast.BinOp(n.args[0], ast.MatMult(), n.args[1])
-                    return n
-            M().visit(f2)
-            if cnt[0]:
-                yield q, f"matmul x{cnt[0]}", ast.unparse(ast.fix_missing_locations(t2))
-        if "fstring" in kinds:
-            t2 = copy.deepcopy(tree)
-            f2 = dict(funcs_of(t2))[q]
-            cnt = [0]
-
-            class F(ast.NodeTransformer):
-                def visit_Call(self, n):
-                    self.generic_visit(n)
-                    if isinstance(n.func, ast.Attribute) and n.func.attr == "format" and isinstance(n.func.value, ast.Constant) \
-                            and isinstance(n.func.value.value, str) and not n.keywords and n.func.value.value.count("{}") == len(n.args) \
-                            and "{" not in n.func.value.value.replace("{}", "") and "}" not in n.func.value.value.replace("{}", "") \
-                            and not any(isinstance(a, ast.Starred) for a in n.args):
-                        parts = n.func.value.value.split("{}")
-                        vals = []
-                        for i_, p_ in enumerate(parts):
-                            if p_:
-                                vals.append(ast.Constant(p_))
-                            if i_ < len(n.args):
-                                vals.append(ast.FormattedValue(n.args[i_], -1, None))
-                        cnt[0] += 1
-                        return ast.JoinedStr(vals)
-                    return n
-            F().visit(f2)
-            if cnt[0]:
-                yield q, f"fstring x{cnt[0]}", ast.unparse(ast.fix_missing_locations(t2))
-
-
-        if "return-temp" in kinds:
-            t2 = copy.deepcopy(tree)
-            f2 = dict(funcs_of(t2))[q]
-            cnt = [0]
-            if not any(isinstance(n, (ast.Yield, ast.YieldFrom)) for n in ast.walk(f2)):
-                class RT(ast.NodeTransformer):
-                    def visit_FunctionDef(self, n):
-                        if n is f2:
-                            self.generic_visit(n)
-                        return n
-
-                    def visit_Lambda(self, n):
-                        return n
-
-                    def visit_Return(self, n):
-                        if n.value is None or isinstance(n.value, (ast.Name, ast.Constant)):
-                            return n
-                        cnt[0] += 1
-                        return [ast.Assign([ast.Name("ret_rn", ast.Store())], n.value), ast.Return(ast.Name("ret_rn", ast.Load()))]
-                RT().visit(f2)
-                if cnt[0]:
-                    yield q, f"return-temp x{cnt[0]}", ast.unparse(ast.fix_missing_locations(t2))
-        if "hoist-arg" in kinds:
-            def sites(f):
-                out_ = []
-                for n in ast.walk(f):
-                    for fld in ("body", "orelse"):
-                        lst = getattr(n, fld, None)
-                        if not isinstance(lst, list):
-                            continue
-                        for i_, st in enumerate(lst):
-                            c = st.value if isinstance(st, (ast.Assign, ast.Expr, ast.Return)) else None
-                            if isinstance(c, ast.Call) and c.args and isinstance(c.args[0], ast.Call) and not isinstance(c.args[0], ast.Starred) \
-                                    and all(isinstance(x, (ast.Name, ast.Attribute)) for x in ast.walk(c.func) if isinstance(x, ast.expr) and not isinstance(x, ast.expr_context)):
-                                out_.append((lst, i_))
-                return out_
-            for k, _ in enumerate(sites(fn)):
-                t2 = copy.deepcopy(tree)
-                f2 = dict(funcs_of(t2))[q]
-                lst, i_ = sites(f2)[k]
-                st = lst[i_]
-                c = st.value
-                tmp = f"arg{k}_rn"
-                lst.insert(i_, ast.Assign([ast.Name(tmp, ast.Store())], c.args[0]))
-                c.args[0] = ast.Name(tmp, ast.Load())
-                yield q, f"hoist-arg #{k} line {getattr(st, 'lineno', '?')}", ast.unparse(ast.fix_missing_locations(t2))
-        if "cmp-flip" in kinds:
-            FL = {ast.Lt: ast.Gt, ast.Gt: ast.Lt, ast.LtE: ast.GtE, ast.GtE: ast.LtE, ast.Eq: ast.Eq, ast.NotEq: ast.NotEq}
-
-            def simple(e):
-                return all(isinstance(x, (ast.Name, ast.Attribute, ast.Constant, ast.expr_context)) or
-                           (isinstance(x, ast.Call) and isinstance(x.func, ast.Name) and x.func.id == "len") for x in ast.walk(e))
-
-            def csites(f):
-                return [n for n in ast.walk(f) if isinstance(n, ast.Compare) and len(n.ops) == 1 and type(n.ops[0]) in FL and simple(n.left) and simple(n.comparators[0])]
-            for k, _ in enumerate(csites(fn)):
-                t2 = copy.deepcopy(tree)
-                f2 = dict(funcs_of(t2))[q]
-                n = csites(f2)[k]
-                n.left, n.comparators, n.ops = n.comparators[0], [n.left], [FL[type(n.ops[0])]()]
-                yield q, f"cmp-flip #{k} line {n.lineno}", ast.unparse(ast.fix_missing_locations(t2))
 
 
 _tls = threading.local()
@@ -241,7 +59,7 @@ def main():
     ap = argparse.ArgumentParser()
     ap.add_argument("target")
     ap.add_argument("--props", default="")
-    ap.add_argument("--kinds", default="rename,swap-if,dot-T,matmul,fstring,return-temp,hoist-arg,cmp-flip")
+    ap.add_argument("--kinds", default=",".join(KINDS))
     ap.add_argument("--funcs", default="")
     a = ap.parse_args()
     rel, props = TARGETS[a.target]
